@@ -17,8 +17,10 @@
 //! view : (0 bytes) String child | (1 cp) char child | (3 n) i64 child | (4) unit
 //!        (5 k view)  Suspend::new(async { future k; view })
 //!        (2 tag attrs children)  tag: index into TAGS
-//! attr : (0 name value) | (1 name bool) | (2 class) | (3 class-name bool) | (4 style) | (5 prop value)
-//!        (6 value) typed `id`
+//! attr : (0 name value ty) | (1 name bool ty) | (2 class ty) | (3 class-name bool ty) | (4 style ty)
+//!        (5 prop value ty keyty) | (6 value ty) typed `id`; ty selects the Rust type that carries the
+//!        string (String, &str, Arc<str>, Cow, Oco, Option<..>, closures, signals: see with_*_value)
+//!        text children: (0 bytes ty)
 use futures::StreamExt;
 use leptos::prelude::*;
 use leptos_meta::*;
@@ -35,6 +37,9 @@ use tachys::{
         RenderHtml,
     },
 };
+use oco_ref::Oco;
+use reactive_graph::{computed::ArcMemo, signal::ArcRwSignal};
+use std::{borrow::Cow, sync::Arc};
 use vsexp::{Lst, Num, Sexp};
 
 pub const TAGS: [&str; 10] =
@@ -44,23 +49,156 @@ fn text(s: &Sexp) -> String {
     s.string().expect("case strings are valid UTF-8 by construction")
 }
 
+fn leak(s: String) -> &'static str {
+    Box::leak(s.into_boxed_str())
+}
+
+/// a string attribute value as one of the types that implement `AttributeValue`
+/// (tachys/src/html/attribute/value.rs, oco.rs, reactive_graph/mod.rs)
+macro_rules! with_attr_value {
+    ($ty:expr, $v:expr, |$x:ident| $body:expr) => {{
+        let v: String = $v;
+        match $ty {
+            1 => { let $x = leak(v); $body }
+            2 => { let $x: Arc<str> = Arc::from(v); $body }
+            3 => { let $x: Oco<'static, str> = Oco::from(v); $body }
+            4 => { let $x = Some(v); $body }
+            5 => { let $x = move || v.clone(); $body }
+            6 => { let $x = move || Oco::<'static, str>::from(v.clone()); $body }
+            7 => { let $x = move || Some(v.clone()); $body }
+            8 => { let $x: &'static String = Box::leak(Box::new(v)); $body }
+            9 => { let $x = ArcRwSignal::new(v); $body }
+            10 => { let $x = ArcMemo::new(move |_| v.clone()); $body }
+            11 => { let $x = Some(leak(v)); $body }
+            _ => { let $x = v; $body }
+        }
+    }};
+}
+pub const N_ATTR_TYPES: i64 = 12;
+
+/// a class string as one of the types that implement `IntoClass` (html/class.rs, oco.rs,
+/// reactive_graph/class.rs)
+macro_rules! with_class_value {
+    ($ty:expr, $v:expr, |$x:ident| $body:expr) => {{
+        let v: String = $v;
+        match $ty {
+            1 => { let $x = leak(v); $body }
+            2 => { let $x: Arc<str> = Arc::from(v); $body }
+            3 => { let $x: Oco<'static, str> = Oco::from(v); $body }
+            4 => { let $x: Cow<'static, str> = Cow::Owned(v); $body }
+            5 => { let $x = Some(v); $body }
+            6 => { let $x = move || v.clone(); $body }
+            7 => { let $x = move || Oco::<'static, str>::from(v.clone()); $body }
+            8 => { let $x = ArcRwSignal::new(v); $body }
+            9 => { let $x = move || Some(v.clone()); $body }
+            10 => { let $x: Cow<'static, str> = Cow::Borrowed(leak(v)); $body }
+            _ => { let $x = v; $body }
+        }
+    }};
+}
+pub const N_CLASS_TYPES: i64 = 11;
+
+/// a whole style string as one of the types that implement `IntoStyle` (html/style.rs,
+/// oco.rs, reactive_graph/style.rs)
+macro_rules! with_style_value {
+    ($ty:expr, $v:expr, |$x:ident| $body:expr) => {{
+        let v: String = $v;
+        match $ty {
+            1 => { let $x = leak(v); $body }
+            2 => { let $x: Arc<str> = Arc::from(v); $body }
+            3 => { let $x: Oco<'static, str> = Oco::from(v); $body }
+            4 => { let $x = Some(v); $body }
+            5 => { let $x = move || v.clone(); $body }
+            6 => { let $x = move || Oco::<'static, str>::from(v.clone()); $body }
+            7 => { let $x = ArcRwSignal::new(v); $body }
+            8 => { let $x = move || Some(v.clone()); $body }
+            9 => { let $x = Some(Oco::<'static, str>::from(v)); $body }
+            _ => { let $x = v; $body }
+        }
+    }};
+}
+pub const N_STYLE_TYPES: i64 = 10;
+
+/// a style property value as one of the types that implement `IntoStyleValue`
+macro_rules! with_style_prop_value {
+    ($ty:expr, $v:expr, |$x:ident| $body:expr) => {{
+        let v: String = $v;
+        match $ty {
+            1 => { let $x = leak(v); $body }
+            2 => { let $x: Arc<str> = Arc::from(v); $body }
+            3 => { let $x: Oco<'static, str> = Oco::from(v); $body }
+            4 => { let $x = Some(v); $body }
+            5 => { let $x = move || v.clone(); $body }
+            6 => { let $x = move || Oco::<'static, str>::from(v.clone()); $body }
+            7 => { let $x = ArcRwSignal::new(v); $body }
+            8 => { let $x = Some(leak(v)); $body }
+            _ => { let $x = v; $body }
+        }
+    }};
+}
+pub const N_PROP_TYPES: i64 = 9;
+
 fn attrs(s: &Sexp) -> Vec<AnyAttribute> {
     s.list()
         .iter()
         .map(|a| match a.at(0).num() {
-            0 => custom_attribute(text(a.at(1)), text(a.at(2))).into_any_attr(),
-            1 => custom_attribute(text(a.at(1)), a.at(2).num() != 0).into_any_attr(),
-            2 => class(text(a.at(1))).into_any_attr(),
-            3 => {
-                let name: &'static str = Box::leak(text(a.at(1)).into_boxed_str());
-                class((name, a.at(2).num() != 0)).into_any_attr()
+            0 => {
+                let key = text(a.at(1));
+                with_attr_value!(a.at(3).num(), text(a.at(2)), |v| custom_attribute(key, v).into_any_attr())
             }
-            4 => style(text(a.at(1))).into_any_attr(),
-            5 => style((text(a.at(1)), text(a.at(2)))).into_any_attr(),
-            _ => id(text(a.at(1))).into_any_attr(),
+            1 => match a.at(3).num() {
+                1 => {
+                    let on = a.at(2).num() != 0;
+                    custom_attribute(text(a.at(1)), move || on).into_any_attr()
+                }
+                _ => custom_attribute(text(a.at(1)), a.at(2).num() != 0).into_any_attr(),
+            },
+            2 => with_class_value!(a.at(2).num(), text(a.at(1)), |v| class(v).into_any_attr()),
+            3 => {
+                let name = leak(text(a.at(1)));
+                let on = a.at(2).num() != 0;
+                match a.at(3).num() {
+                    1 => class((name, move || on)).into_any_attr(),
+                    2 => class((name, ArcRwSignal::new(on))).into_any_attr(),
+                    _ => class((name, on)).into_any_attr(),
+                }
+            }
+            4 => with_style_value!(a.at(2).num(), text(a.at(1)), |v| style(v).into_any_attr()),
+            5 => {
+                let name = text(a.at(1));
+                match a.at(4).num() {
+                    1 => {
+                        let name = leak(name);
+                        with_style_prop_value!(a.at(3).num(), text(a.at(2)), |v| style((name, v)).into_any_attr())
+                    }
+                    2 => {
+                        let name: Arc<str> = Arc::from(name);
+                        with_style_prop_value!(a.at(3).num(), text(a.at(2)), |v| style((name, v)).into_any_attr())
+                    }
+                    _ => with_style_prop_value!(a.at(3).num(), text(a.at(2)), |v| style((name, v)).into_any_attr()),
+                }
+            }
+            _ => with_attr_value!(a.at(2).num(), text(a.at(1)), |v| id(v).into_any_attr()),
         })
         .collect()
 }
+
+/// a text child as one of the types that implement `RenderHtml` for text
+/// (view/strings.rs, oco.rs, reactive closures, Option)
+fn text_child(ty: i64, v: String) -> AnyView {
+    match ty {
+        1 => leak(v).into_any(),
+        2 => Arc::<str>::from(v).into_any(),
+        3 => Cow::<'static, str>::Owned(v).into_any(),
+        4 => Oco::<'static, str>::from(v).into_any(),
+        5 => (move || v.clone()).into_any(),
+        6 => Some(v).into_any(),
+        7 => (move || Oco::<'static, str>::from(v.clone())).into_any(),
+        8 => ArcRwSignal::new(v).into_any(),
+        _ => v.into_any(),
+    }
+}
+pub const N_TEXT_TYPES: i64 = 9;
 
 fn seq(mut v: Vec<AnyView>) -> AnyView {
     let first = v.remove(0);
@@ -106,7 +244,7 @@ pub fn view(v: &Sexp) -> AnyView {
             })
             .into_any()
         }
-        0 => text(v.at(1)).into_any(),
+        0 => text_child(v.at(2).num(), text(v.at(1))),
         1 => char::from_u32(v.at(1).num() as u32)
             .expect("scalar value")
             .into_any(),
